@@ -47,7 +47,7 @@ META = dict(
                  'definitional encodings of sqrt / rational powers as real algebraic equations'],
 )
 
-TOL_ATOMS = ('quadpsd', 'quadnsd', 'quaddiag', 'quadnonsym', 'quadnonsym2')
+TOL_ATOMS = ('quadpsd', 'quadnsd', 'quaddiag', 'quadnonsym', 'quadnonsym2', 'quadsing3', 'quadones3', 'quadrank1')
 TOWER_ATOMS = ('power', 'powerarr', 'pnorm', 'gmean')
 
 
@@ -69,7 +69,7 @@ def run_case(case, ses):
     tower = spec['atom'] in TOWER_ATOMS or spec.get('base') in ('power3', 'gmean')
     try:
         with quiet():
-            cm = Compiled(detgen.desc_from_spec(spec), abstract_towers=tower, front=spec.get('front', 'ro'))
+            cm = Compiled(detgen.desc_from_spec(spec), abstract_towers=tower, front=spec.get('front', 'ro'), style=spec.get('style'))
     except HarnessError:
         raise
     except MalformedProgram as e:
@@ -177,7 +177,7 @@ def layer_b(ses, spec, cm, rows):
     name = spec['name']
     if cm.pcalls:
         with quiet():
-            cm = Compiled(detgen.desc_from_spec(spec), front=spec.get('front', 'ro'))
+            cm = Compiled(detgen.desc_from_spec(spec), front=spec.get('front', 'ro'), style=spec.get('style'))
     m = cm.r.m
     with quiet():
         try:
@@ -187,6 +187,8 @@ def layer_b(ses, spec, cm, rows):
             else:
                 m.solve(display=False)
             val = m.get()
+            if spec.get('front') == 'gcp' and cm.o.obj[0] < 0:
+                val = -val      # the stand-alone front of the harness states max f as min t, -f <= t: get() is -max
         except Exception as e:
             ses.stats.notes.append('%s: solve failed: %s' % (name, str(e)[:80]))
             return
@@ -222,14 +224,14 @@ def replay(data, verbose=False, want_info=False):
     if 'malformed' in data:
         try:
             with quiet():
-                Compiled(detgen.desc_from_spec(spec), front=spec.get('front', 'ro'))
+                Compiled(detgen.desc_from_spec(spec), front=spec.get('front', 'ro'), style=spec.get('style'))
         except MalformedProgram as e:
             if verbose:
                 print('model %s: %s' % (spec['name'], e))
             return (True, {}) if want_info else True
         return (False, {}) if want_info else False
     with quiet():
-        cm = Compiled(detgen.desc_from_spec(spec), abstract_towers=((spec['atom'] in TOWER_ATOMS or spec.get('base') in ('power3', 'gmean')) and data['row'] != 'solver-point'), front=spec.get('front', 'ro'))
+        cm = Compiled(detgen.desc_from_spec(spec), abstract_towers=((spec['atom'] in TOWER_ATOMS or spec.get('base') in ('power3', 'gmean')) and data['row'] != 'solver-point'), front=spec.get('front', 'ro'), style=spec.get('style'))
     v = data['v']
     info = {}
     rows = cm.rows()
